@@ -139,15 +139,24 @@ def classifiedAll (d : AnalyzedSource) : List (Ref GlobalDecl) → List Token
     | none => []
     | some sl => classified (semClassify d gd.val sl) sl 0 ++ classifiedAll d rest
 
-theorem go_decode (d : AnalyzedSource) : ∀ (ds : List (Ref GlobalDecl)) (prev : Pos) (sts : List SemTok),
-    semanticTokensGo d ds prev = .ok sts →
-    decode prev sts = (classifiedAll d ds).map (fun t => asPosition t.range.lo d.text)
-  | [], prev, sts, h => by
-    simp only [semanticTokensGo, Except.ok.injEq] at h
-    subst h
+theorem lastPos_append (prev : Pos) (a b : List Pos) : lastPos prev (a ++ b) = lastPos (lastPos prev a) b := by
+  cases b with
+  | nil => simp [lastPos]
+  | cons x l =>
+    simp only [lastPos, List.getLast?_append]
+    rw [List.getLast?_eq_some_getLast (List.cons_ne_nil x l)]
     rfl
-  | gd :: rest, prev, sts, h => by
-    simp only [semanticTokensGo] at h
+
+theorem from_decode (d : AnalyzedSource) : ∀ (ds : List (Ref GlobalDecl)) (prev : Pos) (sts : List SemTok) (p : Pos),
+    semanticTokensFrom d ds prev = .ok (sts, p) →
+    decode prev sts = (classifiedAll d ds).map (fun t => asPosition t.range.lo d.text) ∧
+    p = lastPos prev (decode prev sts)
+  | [], prev, sts, p, h => by
+    simp only [semanticTokensFrom, Except.ok.injEq, Prod.mk.injEq] at h
+    obtain ⟨rfl, rfl⟩ := h
+    simp [decode, classifiedAll, lastPos]
+  | gd :: rest, prev, sts, p, h => by
+    simp only [semanticTokensFrom] at h
     cases hd : declTokens d gd with
     | none => simp [hd] at h
     | some sl =>
@@ -157,28 +166,56 @@ theorem go_decode (d : AnalyzedSource) : ∀ (ds : List (Ref GlobalDecl)) (prev 
       | ok r =>
         obtain ⟨s1, p1⟩ := r
         simp only [hc] at h
-        cases hr : semanticTokensGo d rest p1 with
+        cases hr : semanticTokensFrom d rest p1 with
         | error e => simp [hr] at h
-        | ok more =>
-          simp only [hr, Except.ok.injEq] at h
-          subst h
+        | ok r2 =>
+          obtain ⟨more, p2⟩ := r2
+          simp only [hr, Except.ok.injEq, Prod.mk.injEq] at h
+          obtain ⟨rfl, rfl⟩ := h
           obtain ⟨e1, e2⟩ := collectToks_decode d.text _ sl 0 prev s1 p1 hc
-          have ih := go_decode d rest p1 more hr
-          rw [decode_append, ← e2, ih, e1]
-          simp [classifiedAll, hd]
+          obtain ⟨ih1, ih2⟩ := from_decode d rest p1 more p2 hr
+          refine ⟨?_, ?_⟩
+          · rw [decode_append, ← e2, ih1, e1]
+            simp [classifiedAll, hd]
+          · rw [decode_append, ← e2, ih2, lastPos_append, ← e2]
+
+/-- the classifier of the tokens behind the last declaration: lexical classes only -/
+def restClassify : Nat → Token → Option (Nat × Nat) := fun _ t => (mapTokenClass t).map (fun c => (c, 0))
+
+/-- all classified tokens of a document: those of its declarations, then those behind the last one -/
+def classifiedDoc (d : AnalyzedSource) : List Token :=
+  classifiedAll d d.ast.decls ++ classified restClassify (d.tokens.drop (restStart d)) 0
 
 /-- **Decoding the relative encoding gives back the tokens' positions.**  Whenever the handler
     answers, a client that decodes the `(deltaLine, deltaStart)` stream from `(0, 0)` — the LSP
     rule — obtains exactly the start positions (`as_position` of the token start) of the
-    classified tokens, declaration by declaration in document order: nothing is shifted, dropped or
-    duplicated, for every document. -/
+    classified tokens, declaration by declaration in document order and then the comments behind
+    the last declaration: nothing is shifted, dropped or duplicated, for every document. -/
 theorem semantic_tokens_decode (d : AnalyzedSource) (sts : List SemTok) (h : semanticTokens d = .ok sts) :
-    decode ⟨0, 0⟩ sts = (classifiedAll d d.ast.decls).map (fun t => asPosition t.range.lo d.text) :=
-  go_decode d d.ast.decls ⟨0, 0⟩ sts h
+    decode ⟨0, 0⟩ sts = (classifiedDoc d).map (fun t => asPosition t.range.lo d.text) := by
+  simp only [semanticTokens] at h
+  cases hf : semanticTokensFrom d d.ast.decls ⟨0, 0⟩ with
+  | error e => simp [hf] at h
+  | ok r =>
+    obtain ⟨s1, p1⟩ := r
+    simp only [hf] at h
+    cases hc : collectToks d.text restClassify (d.tokens.drop (restStart d)) 0 p1 with
+    | error e =>
+      have : collectToks d.text (fun _ t => (mapTokenClass t).map (fun c => (c, 0))) (d.tokens.drop (restStart d)) 0 p1 = .error e := hc
+      simp [this] at h
+    | ok r2 =>
+      obtain ⟨s2, p2⟩ := r2
+      have hc' : collectToks d.text (fun _ t => (mapTokenClass t).map (fun c => (c, 0))) (d.tokens.drop (restStart d)) 0 p1 = .ok (s2, p2) := hc
+      simp only [hc', Except.ok.injEq] at h
+      subst h
+      obtain ⟨e1, e2⟩ := from_decode d d.ast.decls ⟨0, 0⟩ s1 p1 hf
+      obtain ⟨e3, _⟩ := collectToks_decode d.text restClassify _ 0 p1 s2 p2 hc
+      rw [decode_append, ← e2, e1, e3]
+      simp [classifiedDoc]
 
 /-- one produced semantic token per classified token -/
 theorem semantic_tokens_count (d : AnalyzedSource) (sts : List SemTok) (h : semanticTokens d = .ok sts) :
-    sts.length = (classifiedAll d d.ast.decls).length := by
+    sts.length = (classifiedDoc d).length := by
   have := congrArg List.length (semantic_tokens_decode d sts h)
   have hl : ∀ (p : Pos) (l : List SemTok), (decode p l).length = l.length := by
     intro p l
